@@ -197,15 +197,16 @@ def run(prop: str, tier: str, seed: int) -> int:
     t0 = time.time()
     verd = fx.Verdicts(prop)
     rng = random.Random(seed)
-    if tier == 'quick':
-        gens = [generate_chains(3, ALL_NAMES, 3)]
-        sample = 1500
-    else:
-        gens = [generate_chains(3, ALL_NAMES, 3), generate_chains(4, CORE_NAMES, 3)]
-        sample = None
-    t1 = time.time()
-    nest = nested_cases(tier)
-    t2 = time.time()
+    from concurrent.futures import ThreadPoolExecutor
+
+    with ThreadPoolExecutor(max_workers=3) as pool:
+        jobs = [pool.submit(generate_chains, 3, ALL_NAMES, 2)]
+        if tier != 'quick':
+            jobs.append(pool.submit(generate_chains, 4, CORE_NAMES, 3))
+        nest_job = pool.submit(nested_cases, tier)
+        gens = [j.result() for j in jobs]
+        nest = nest_job.result()
+    t1 = t2 = time.time()
     cases, seen = [], set()
     for g in gens + [nest]:
         for c in g.cases:
@@ -214,16 +215,25 @@ def run(prop: str, tier: str, seed: int) -> int:
                 seen.add(c['id'])
                 cases.append(c)
     emitted = len(cases)
-    if sample is not None and len(cases) > sample:
-        # stratify by the multiset of operand kinds so that every rule/context class is replayed
-        picked, strata = fx.stratified_sample(
-            cases, lambda c: (len(c.get('names', [])), '/'.join(sorted(set(_kinds(c['term']))))), 3, seed, cap=None)
-        if len(picked) > sample:
-            picked = rng.sample(picked, sample)
-        nstrata = len(strata)
+    if tier == 'quick':
+        # every chain in which the specification's scan fires a rule is replayed; the others and the
+        # nested terms are sampled, stratified by the set of operand kinds / by template and container
+        firing = [c for c in cases if c.get('fired', 0) >= 1]
+        quiet = [c for c in cases if 'fired' in c and c['fired'] == 0]
+        nestd = [c for c in cases if 'fired' not in c]
+        q, s1 = fx.stratified_sample(quiet, lambda c: '/'.join(sorted(set(_kinds(c['term'])))), 1, seed)
+        if len(q) > 300:
+            q = rng.sample(q, 300)
+        n, s2 = fx.stratified_sample(nestd, lambda c: '/'.join(c['names'][:3] + sorted(set(c['names'][3:]))), 1, seed)
+        if len(n) > 500:
+            n = rng.sample(n, 500)
+        picked = firing + q + n
+        nstrata = {'firing_chains_all': len(firing), 'quiet_chain_strata': len(s1), 'nested_strata': len(s2)}
+        sample = len(picked)
     else:
-        picked, nstrata = cases, None
-    traces = fx.replay('redcheck', 'execute', picked, procs=fx.NPROC, chunksize=8)
+        picked, nstrata, sample = cases, None, None
+    picked.sort(key=lambda c: (c.get('names') or [''])[0:2])
+    traces = fx.replay('redcheck', 'execute', picked, procs=fx.NPROC, chunksize=max(4, len(picked) // (fx.NPROC * 3)))
     t3 = time.time()
     verdicts, tv = validate(traces)
     t4 = time.time()
